@@ -1757,32 +1757,44 @@ func c14R12(p *core.Program, r *core.Report, fs []*core.Func) {
 func c14R13(p *core.Program, r *core.Report, fs []*core.Func) {
 	const rule = "R13"
 	r.Floor(rule, 2)
-	// the tracing function: the resolver method with a types.Object parameter
-	var tracer *core.Func
-	tk := -1
+	// the tracing functions: the resolver methods with a types.Object parameter (the one that follows the assignments,
+	// and helpers it hands its target on to)
+	tracers := map[*types.Func]int{}
 	for _, f := range fs {
 		root := f.Root()
-		if root.Decl == nil || root.Decl.Type.Params == nil {
+		if root.Decl == nil || root.Decl.Type.Params == nil || root.Obj() == nil {
 			continue
 		}
 		i := 0
 		for _, fld := range root.Decl.Type.Params.List {
 			for range fld.Names {
 				if core.NamedTypeName(root.Info().TypeOf(fld.Type)) == "go/types.Object" {
-					tracer, tk = root, i
+					tracers[root.Obj()] = i
 				}
 				i++
 			}
 		}
 	}
-	if tracer == nil {
+	if len(tracers) == 0 {
 		r.Anchor(rule, "the resolver function that follows the assignments to a types.Object")
 		return
 	}
 	n := 0
 	for _, cs := range allCalls(p) {
-		if cs.In.Body == nil || core.CalleeFunc(cs.In.Info(), cs.Call) != tracer.Obj() || tk >= len(cs.Call.Args) {
+		if cs.In.Body == nil {
 			continue
+		}
+		tk, isTracer := tracers[core.CalleeFunc(cs.In.Info(), cs.Call)]
+		if !isTracer || tk >= len(cs.Call.Args) {
+			continue
+		}
+		// a tracer that hands its own target on: decided where the outer tracer is called
+		if ro := cs.In.Root().Obj(); ro != nil {
+			if ok, has := tracers[ro]; has {
+				if pv := core.VarOf(cs.In.Info(), cs.Call.Args[tk]); pv != nil && isParamOf(cs.In.Root(), pv) && paramIndex(cs.In.Root(), pv) == ok {
+					continue
+				}
+			}
 		}
 		n++
 		in := cs.In
